@@ -331,9 +331,12 @@ def main(argv: list[str] | None = None) -> int:
             grid_points += g.get("points", 0)
             if g.get("error"):
                 harness_errors.append(f"grid {c.name}: {g['error']}")
+            reported = 0
             for fl in g.get("fails", []):
                 if c.twin:
                     continue
+                if reported >= 3:
+                    break
                 try:
                     args = eval(fl["args"], {"nan": float("nan"), "inf": float("inf")})  # noqa: S307
                 except Exception:  # noqa: BLE001
@@ -352,6 +355,7 @@ def main(argv: list[str] | None = None) -> int:
                 call = f"_H.{c.name}(*{fl['args']})"
                 path = write_replay(t, prop, "VIOLATION (native grid)", call)
                 violations.append(path)
+                reported += 1
                 records.append({"condition": c.name, "pass": "native-grid", "status": "refuted", "counterexample": fl})
 
         for idx, f in enumerate(findings):
